@@ -196,3 +196,10 @@ def long_values():
     one = FmtStr(Chunk("xＥ y" * 1200, {"fg": 32}))
     holes = FmtStr(*[Chunk("" if k % 2 else "pq", dict(atts[k % 3])) for k in range(2400)])
     return [("3000 one-character runs", many), ("one run of 6000 characters", one), ("2400 runs, every other one empty", holes)]
+
+
+# one representative of each class of character that some classification other than wcwidth might treat specially (whitespace, separators,
+# format characters, combining marks WITH a width - canonical combining class / category Mc -, variation selectors, emoji modifiers, jamo)
+CHAR_CLASSES = ["\u3000", "\u00a0", "\u200b", "\u200d", "\u00ad", "\u2028", "\ufeff", "\U0001F600", "\u4e2d", "\x00", "\u0301", "\uff25", "\u1100",
+                "\u0600", "\u2060", "\u00e9", "~", "\ua9c0", "\u1b44", "\u302e", "\U0001D165", "\u0903", "\u093e", "\ufe0f", "\U0001F1E6", "\U0001F3FB",
+                "\u1160", "\u0e33", "\u200e"]
